@@ -138,6 +138,16 @@ CHECKS = {
          "translation exact, unit rotation, negative x scale iff det < 0, recomposition reproduces the transform."),
    note="Trusted: TLC, harness rot.rs. Scale magnitudes are powers of two; arbitrary magnitudes in [1e-3,1e3] are not enumerated.",
    ref="5 (C10)"),
+ "C11": dict(
+   technique="TLA+ exact view construction over the ring with its defining properties as TLC-checked theorems, and projection constructors specified by their plane mappings with exact dyadic clip coordinates; replay with a stated tolerance",
+   text=("MC_C11 builds look_to_rh/lh exactly over Z[sqrt2,1/2] and TLC proves on every enumerated (eye, dir, up) that the result is rigid "
+         "(orthonormal, det +1), sends the eye to the origin, dir to -Z/+Z and up into the +Y half of the YZ plane; projections are defined by "
+         "the documented depth mapping (near/far -> [-1,1], [0,1], infinite, reverse), fov/box planes -> +-1 and clip w = -+z, with TLC "
+         "checking the promises at the near/far planes and frustum containment. The harness compares look_to/look_at of Mat4/DMat4/"
+         "Affine3A/DAffine3/Mat3/Mat3A/Quat/DQuat with the exact matrix (non-perpendicular up hints, off-axis eyes, both handednesses) and "
+         "M*(p,1), project_point3, transform_point3 of all 10 projection constructors on 48-100 probe points per parameter set."),
+   note="Trusted: TLC, harness rot.rs tolerance comparison (4e-5 / 4e-12 relative). Parameters off the dyadic grids are not enumerated.",
+   ref="5 (C11)"),
 }
 
 PENDING = {}
